@@ -40,7 +40,7 @@ func take(r io.Reader, n int) []byte {
 	}
 	return b
 }
-func zInt(v int64) *num.Int           { return num.Z().FromInt64(v) }
+func zInt(v int64) *num.Int { return num.Z().FromInt64(v) }
 
 func primes(flavour string, bits int) (p, q *big.Int) {
 	for _, e := range primeTable {
